@@ -22,6 +22,12 @@ Sub-checks (Violation.subcheck):
   halt      a halted CPU executes nothing, wakes when a status bit is pending, never wakes without one
   off       additionally: no timer status bit is raised while powered off
   machine   the model raised an error while stepping a valid scenario
+
+Wider observations (round 2): every record carries the internal-memory window 00-EE (user RAM + BP/PX/PY); a step
+may change it only as its template instruction explains (INC (n), MV (BP|PX|PY),n) -- interrupt entry and RETI
+must not touch it, whatever the base pointer is (reti / frame / state).  The model's own timer targets ("nm","ns")
+are used as expiry witnesses: an expiry must leave its status bit pending (not-lost).  With the machine's keyboard
+interrupt enable off ("kbirq": false) no key event may raise KEYI (gate).
 """
 
 from __future__ import annotations
@@ -61,6 +67,11 @@ class Monitor:
         self.max_masked_pending = 0
         self.wakes = 0
         self.lo = R.STACK_TOP - R.STACK_WINDOW
+        self.kbirq_off = sc.get("kbirq") is False
+        if self.kbirq_off:
+            self.labels.add("kbirq-disabled")
+        if any(sc.get(f) for f in ("bp0", "px0", "py0")):
+            self.labels.add("imem-base-nonzero")
 
     # ------------------------------------------------------------------ helpers
     def ctx(self, B: Dict[str, Any]) -> str:
@@ -78,6 +89,9 @@ class Monitor:
     def events(self, k: int, P: Dict[str, Any], B: Dict[str, Any], kinds: List[str]) -> None:
         rose = B["isr"] & ~P["isr"] & 0x0F
         fell = P["isr"] & ~B["isr"] & 0x0F
+        if (rose & 0x04) and self.kbirq_off:
+            self.v("gate", "host-event", "KEYI status raised by a key event although keyboard interrupts are disabled",
+                   f"step {k}: events {kinds}: ISR {P['isr']:#04x} -> {B['isr']:#04x} key-latch {P['lat']}->{B['lat']}")
         for bit in (1, 2, 4, 8):
             if rose & bit:
                 self.req.setdefault(bit, [0, False])
@@ -116,6 +130,11 @@ class Monitor:
                     self.v("halt" if not off_mode else "off", ctx, "state changed while the CPU stayed in low power",
                            f"step {k}: delivered={d} changed={changed}")
                 must = (B["isr"] & 0x08) if off_mode else B["isr"]
+                if self.kbirq_off:
+                    # lib.rs documents "When keyboard IRQs are disabled, ignore KEYI for HALT wake"; Python wakes on
+                    # any status bit.  The models disagree and the statement does not cover a disabled source: no
+                    # wake obligation for a (poked / firmware-written) KEYI bit in this configuration.
+                    must &= ~0x04
                 if must:
                     self.v("halt" if not off_mode else "off", ctx,
                            f"not resumed although status {_names(must & 0x0F) if must & 0x0F else 'bit(4-7)'} is pending",
@@ -304,12 +323,60 @@ class Monitor:
             if delivered_here:
                 self.labels.add("reti+redelivery" if self.order == "post" else "delivery+reti-in-one-step")
 
+        # ---------------- internal memory of the interrupted program (user RAM 00-EB, BP, PX, PY)
+        if "im" in A and "im" in B and (A["im"] != B["im"] or (executed is not None and executed.get("imw"))):
+            before_im = bytes.fromhex(B["im"])
+            after_im = bytes.fromhex(A["im"])
+            exp = bytearray(before_im)
+            w = executed.get("imw") if executed is not None else None
+            if w:
+                off = int(w[1]) - R.IM_LO
+                if 0 <= off < len(exp):
+                    exp[off] = (int(w[2]) & 0xFF) if w[0] == "set" else ((exp[off] + 1) & 0xFF)
+            diff = [i for i in range(min(len(exp), len(after_im))) if after_im[i] != exp[i]]
+            if diff:
+                det_im = (f"step {k}: " + ", ".join(f"IMEM[{R.IM_LO + i:#04x}] {before_im[i]:#04x}->{after_im[i]:#04x}"
+                                                    f" (expected {exp[i]:#04x})" for i in diff[:6]) +
+                          f"; BP={before_im[R.BP - R.IM_LO]:#04x} PX={before_im[R.PX - R.IM_LO]:#04x} "
+                          f"PY={before_im[R.PY - R.IM_LO]:#04x} instr={executed['kind'] if executed else None} delivered={d}")
+                if reti_frame is not None:
+                    self.v("reti", ctx, "RETI changed internal memory of the interrupted program (other than IMR)", det_im)
+                elif delivered_here:
+                    self.v("frame", ctx, "delivery wrote internal memory other than IMR", det_im)
+                else:
+                    self.v("state", ctx, "internal memory changed in a way the executed instruction does not explain", det_im)
+        if "im" in B and (reti_frame is not None or delivered_here):
+            o = 2 * (R.BP - R.IM_LO)
+            if B["im"][o:o + 6] != "000000":
+                if reti_frame is not None:
+                    self.labels.add("reti-with-imem-base-nonzero")
+                if delivered_here:
+                    self.labels.add("delivery-with-imem-base-nonzero")
+
         # ---------------- status register bookkeeping (B -> A)
         rose = A["isr"] & ~B["isr"] & 0x0F
         fell = B["isr"] & ~A["isr"] & 0x0F
         fw_set = 0
         if executed is not None and executed["kind"] == "ISR":
             fw_set = executed["arg"] & 0x0F
+        if self.kbirq_off and (rose & 0x04) and not (fw_set & 0x04):
+            self.v("gate", ctx, "KEYI status raised during a step although keyboard interrupts are disabled",
+                   f"step {k}: ISR {B['isr']:#04x}->{A['isr']:#04x} key-latch {B['lat']}->{A['lat']} "
+                   f"instr={executed['kind'] if executed else None}")
+        # timer expiries witnessed by the model's own timer targets: each must leave its status bit pending.  Not
+        # judged in steps whose instruction writes ISR or is RETI (the models order tick and write differently) or
+        # that start/end powered off (Rust documents that OFF clears non-ONK status).
+        fired = (0x01 if A["nm"] != B["nm"] else 0) | (0x02 if A["ns"] != B["ns"] else 0)
+        if fired:
+            self.labels.add("timer-expiry:" + _names(fired))
+            if not isr_writer and reti_frame is None and B["pw"] != 2 and A["pw"] != 2:
+                missing = fired & ~A["isr"] & 0x03
+                if missing:
+                    self.v("not-lost", ctx,
+                           f"timer expiry {_names(missing)} left no pending status bit"
+                           + (" (both timers expired in this step)" if fired == 0x03 else ""),
+                           f"step {k}: next_mti {B['nm']}->{A['nm']} next_sti {B['ns']}->{A['ns']} cycles "
+                           f"{B['cyc']}->{A['cyc']} ISR {B['isr']:#04x}->{A['isr']:#04x} IMR={A['imr']:#04x} delivered={d}")
         for bit in (1, 2, 4, 8):
             if rose & bit and not (fw_set & bit) and not (served & bit):
                 self.req.setdefault(bit, [0, bool(bypassed & bit)])
